@@ -334,6 +334,10 @@ def unmarshal (T : Tables) (chk : Bool) (fds : Option (List Nat)) (fuel : Nat) (
 /-- Fuel that is always enough for `unmarshal` (`Properties/C05.lean: unmarshal_fuel_adequate`). -/
 def fuelFor (sig : List Char) (data : List UInt8) : Nat := 2 * sig.length + 2 * data.length + 2
 
+/-- Fuel that is always enough for the VALUE model `Code.unmarshal` of `Wire/Code.lean`, whose fuel counts nesting levels
+of per-type calls (`Properties/C05.lean: code_fuel_adequate`): one more than the bound of `unmarshal_depth_bounded`. -/
+def codeFuel (sig : List Char) (data : List UInt8) (off : Nat) : Nat := sig.length + (data.length - off) + 1
+
 /-- Bound on `steps` (`unmarshal_steps_linear`): linear in the number of data bytes from `off` on, with
 a factor given by the longest signature in play (the top-level one, or a variant's: at most 255). -/
 def stepBound (sig : List Char) (data : List UInt8) (off : Nat) : Nat :=
